@@ -68,8 +68,9 @@ def analyse(ctx):
     from .c20 import cache_helpers as _ch
     H_ = _ch(G)
     for x in walk(f):
-        if x.get('kind') == 'CallExpr' and callee(x) and callee(x)[0] == 'fn' and callee(x)[1].get('_qn'):
-            for tgk in G.resolve_decl(callee(x)[1]):
+        if x.get('kind') in ('CallExpr', 'CXXMemberCallExpr') and callee(x):
+            from .c20 import call_targets as _ct
+            for tgk in _ct(G, x):
                 if tgk in H_ and H_[tgk].get('out_cache'):
                     for ai_, a_ in enumerate(call_args(x)):
                         pa_ = peel(a_)
@@ -90,11 +91,11 @@ def analyse(ctx):
                     c = callee(x)
                     if c and c[0] == 'fn' and c[1].get('name') == 'operator[]':
                         slot_ids.add(i)
-                elif x.get('kind') == 'CallExpr' and callee(x) and callee(x)[0] == 'fn' and callee(x)[1].get('_qn'):
+                elif x.get('kind') in ('CallExpr', 'CXXMemberCallExpr') and callee(x):
                     # a helper that hands back the slot of the name (insert-if-absent inside it)
-                    from .c20 import cache_helpers
+                    from .c20 import cache_helpers, call_targets as _ct2
                     H = cache_helpers(G)
-                    for tgk in G.resolve_decl(callee(x)[1]):
+                    for tgk in _ct2(G, x):
                         if tgk in H and H[tgk]['returns_cache'] and 'write' in H[tgk]['kinds']:
                             slot_ids.add(i)
         if 'unique_ptr' in (dtype(d) or t) or any(x.get('kind') == 'CXXNewExpr' for x in walk(init)):
@@ -237,7 +238,7 @@ def analyse(ctx):
         return x
     ptrkeys = set('%s#%s' % (locs[i].get('name'), i) for i in cachederived_ids
                   if i not in slot_ids and _init(locs[i]) is not None
-                  and _strip(_init(locs[i])).get('kind') == 'CallExpr')
+                  and _strip(_init(locs[i])).get('kind') in ('CallExpr', 'CXXMemberCallExpr'))
     # ---- hit edges: cond edges that establish  itr != map.end()  (or count()/contains())
     hit_edges = []
     for n in g.live:
